@@ -218,6 +218,11 @@ def ite_val(c, a, b):
         return None
     if isinstance(a, str) and a == b:
         return a
+    if isinstance(a, IntMap) and isinstance(b, IntMap):
+        return IntMap(lambda k: z3.If(c, a.dom(k), b.dom(k)), lambda k: ite_val(c, a.val(k), b.val(k)),
+                      z3.If(c, to_z3(a.n), to_z3(b.n)), lambda p: z3.If(c, a.key_at(p), b.key_at(p)), lambda k: z3.If(c, a.pos_of(k), b.pos_of(k)))
+    if isinstance(a, Opaque) and isinstance(b, Opaque) and a.kind == b.kind and set(a.attrs) == set(b.attrs):
+        return Opaque(a.kind, {k: ite_val(c, a.attrs[k], b.attrs[k]) for k in a.attrs})
     raise Unsupported(f"ite of {type(a).__name__} and {type(b).__name__}")
 
 
@@ -411,11 +416,25 @@ class IntMapOf(Shape):
         self.val = val
 
 
+class EmptyMap(Shape):
+    """An empty dict that will receive int keys (calculated_temperatures = {})."""
+
+    def __init__(self, val=None):
+        self.val = val
+
+
 class FnOf(Shape):
     """Uninterpreted pure function of `arity` real arguments returning a real."""
 
-    def __init__(self, arity=1, ret=Real, args=None):
-        self.arity, self.ret, self.args = arity, ret, args
+    def __init__(self, arity=1, ret=Real, args=None, track=None):
+        self.arity, self.ret, self.args, self.track = arity, ret, args, track
+
+
+class AliasOf(Shape):
+    """Frame entry: the field becomes (a reference to) an existing object, e.g. a constructor argument."""
+
+    def __init__(self, fn):
+        self.fn = fn
 
 
 class Same(Shape):
@@ -426,8 +445,20 @@ def z3sort(s):
     return {"Int": z3.IntSort(), "Real": z3.RealSort(), "Bool": z3.BoolSort()}[s]
 
 
-def fresh(shape, name, wf):
-    """Fresh symbolic value of `shape`; well-formedness constraints are appended to `wf`."""
+_ALIAS_ENV = [None]
+
+
+def fresh(shape, name, wf, env=None):
+    """Fresh symbolic value of `shape`; well-formedness constraints are appended to `wf`.
+    `env` (raw parameter environment) resolves AliasOf entries."""
+    if env is not None:
+        _ALIAS_ENV.append(env)
+        try:
+            return fresh(shape, name, wf)
+        finally:
+            _ALIAS_ENV.pop()
+    if isinstance(shape, AliasOf):
+        return shape.fn(_ALIAS_ENV[-1])
     if isinstance(shape, _Scalar):
         return z3.Const(uid(name), z3sort(shape.sort))
     if isinstance(shape, NoneT):
@@ -456,10 +487,17 @@ def fresh(shape, name, wf):
         key_at = z3.Function(uid(name + ".key"), z3.IntSort(), z3.IntSort())
         pos_of = z3.Function(uid(name + ".pos"), z3.IntSort(), z3.IntSort())
         return IntMap(lambda k: dom(k), val, n, lambda p: key_at(p), lambda k: pos_of(k))
+    if isinstance(shape, EmptyMap):
+        val = fresh_getter(shape.val or Real, name + ".val", wf)
+        return IntMap(lambda k: z3.BoolVal(False), val, 0, lambda p: z3.IntVal(-1), lambda k: z3.IntVal(-1))
     if isinstance(shape, FnOf):
         args = shape.args or [Real] * shape.arity
         f = z3.Function(uid(name), *[z3sort(a.sort) for a in args], z3sort(shape.ret.sort))
-        return UFun(name, lambda *a: f(*[coerce(x, s) for x, s in zip(a, args)]))
+        on_call = None
+        if shape.track:
+            def on_call(ex, st, a, node, key=shape.track):
+                st.env[key] = a[0]
+        return UFun(name, lambda *a: f(*[coerce(x, s) for x, s in zip(a, args)]), on_call=on_call)
     raise Unsupported(f"fresh: shape {shape!r}")
 
 
@@ -472,32 +510,59 @@ def coerce(v, shape):
 
 def fresh_getter(elem, name, wf):
     """Getter index -> fresh element of shape `elem`, realised by uninterpreted functions of the index."""
+    f = fresh_fn(elem, name, 1, wf)
+    return lambda i: f(i)
+
+
+def fresh_fn(elem, name, nidx, wf):
+    """callable(*indices) -> value of shape `elem`; every leaf is an uninterpreted function of the indices
+    (nested lists add one index per level)."""
+    isorts = [z3.IntSort()] * nidx
     if isinstance(elem, _Scalar):
-        f = z3.Function(uid(name + ".at"), z3.IntSort(), z3sort(elem.sort))
-        return lambda i: f(to_z3(i))
+        f = z3.Function(uid(name + ".at"), *isorts, z3sort(elem.sort))
+        return lambda *i: f(*[to_z3(x) for x in i])
     if isinstance(elem, TupleOf):
-        gs = [fresh_getter(e, f"{name}.{k}", wf) for k, e in enumerate(elem.elems)]
-        return lambda i: tuple(g(i) for g in gs)
+        gs = [fresh_fn(e, f"{name}.{k}", nidx, wf) for k, e in enumerate(elem.elems)]
+        return lambda *i: tuple(g(*i) for g in gs)
     if isinstance(elem, FixedList):
-        gs = [fresh_getter(elem.elems[k], f"{name}.{k}", wf) for k in range(elem.n)]
-        return lambda i: PyList([g(i) for g in gs])
+        gs = [fresh_fn(elem.elems[k], f"{name}.{k}", nidx, wf) for k in range(elem.n)]
+        return lambda *i: PyList([g(*i) for g in gs], np=elem.np)
     if isinstance(elem, OpaqueOf):
-        gs = {k: fresh_getter(s, f"{name}.{k}", wf) for k, s in elem.attrs.items()}
-        return lambda i: Opaque(elem.kind, {k: g(i) for k, g in gs.items()})
+        gs = {k: fresh_fn(s, f"{name}.{k}", nidx, wf) for k, s in elem.attrs.items()}
+        return lambda *i: Opaque(elem.kind, {k: g(*i) for k, g in gs.items()})
+    if isinstance(elem, ObjOf):
+        gs = {k: fresh_fn(s, f"{name}.{k}", nidx, wf) for k, s in elem.fields.items()}
+        return lambda *i: PyObj(elem.cls, {k: g(*i) for k, g in gs.items()})
+    if isinstance(elem, Const):
+        return lambda *i: elem.value
+    if isinstance(elem, NoneT):
+        return lambda *i: None
+    if isinstance(elem, IntMapOf):
+        dom = z3.Function(uid(name + ".dom"), *isorts, z3.IntSort(), z3.BoolSort())
+        valf = fresh_fn(elem.val, name + ".val", nidx + 1, wf)
+        nf = z3.Function(uid(name + ".n"), *isorts, z3.IntSort())
+        key_at = z3.Function(uid(name + ".key"), *isorts, z3.IntSort(), z3.IntSort())
+        pos_of = z3.Function(uid(name + ".pos"), *isorts, z3.IntSort(), z3.IntSort())
+        vs = [z3.Int(uid("w")) for _ in range(nidx)]
+        wf.append(z3.ForAll(vs, nf(*vs) >= 0, patterns=[nf(*vs)]))
+
+        def mk(*i):
+            iz = [to_z3(x) for x in i]
+            return IntMap(lambda k: dom(*iz, to_z3(k)), lambda k: valf(*iz, to_z3(k)), nf(*iz), lambda p: key_at(*iz, to_z3(p)), lambda k: pos_of(*iz, to_z3(k)))
+
+        return mk
     if isinstance(elem, ListOf):
-        # list of lists: inner length and inner elements are functions of the outer index
-        lenf = z3.Function(uid(name + ".len2"), z3.IntSort(), z3.IntSort())
-        if isinstance(elem.elem, _Scalar):
-            f2 = z3.Function(uid(name + ".at2"), z3.IntSort(), z3.IntSort(), z3sort(elem.elem.sort))
-            return lambda i: PyList(Seq(lenf(to_z3(i)), lambda j, i=i: f2(to_z3(i), to_z3(j)), np=elem.np), np=elem.np)
-        if isinstance(elem.elem, TupleOf) and all(isinstance(e, _Scalar) for e in elem.elem.elems):
-            f2s = [z3.Function(uid(f"{name}.at2.{k}"), z3.IntSort(), z3.IntSort(), z3sort(e.sort)) for k, e in enumerate(elem.elem.elems)]
-            return lambda i: PyList(Seq(lenf(to_z3(i)), lambda j, i=i: tuple(f(to_z3(i), to_z3(j)) for f in f2s)))
-        if isinstance(elem.elem, FixedList) and isinstance(elem.elem.elem, _Scalar):
-            f2s = [z3.Function(uid(f"{name}.at2.{k}"), z3.IntSort(), z3.IntSort(), z3sort(elem.elem.elem.sort)) for k in range(elem.elem.n)]
-            return lambda i: PyList(Seq(lenf(to_z3(i)), lambda j, i=i: PyList([f(to_z3(i), to_z3(j)) for f in f2s])))
-        raise Unsupported("nested list element shape")
-    raise Unsupported(f"fresh_getter: {elem!r}")
+        if elem.length is not None:
+            lenf = lambda *i: elem.length  # noqa: E731
+        else:
+            lf = z3.Function(uid(name + ".len"), *isorts, z3.IntSort())
+            lenf = lambda *i: lf(*[to_z3(x) for x in i])  # noqa: E731
+            # lengths are non-negative (and >= minlen) for every index: a well-formedness axiom
+            vs = [z3.Int(uid("w")) for _ in range(nidx)]
+            wf.append(z3.ForAll(vs, lf(*vs) >= elem.minlen, patterns=[lf(*vs)]))
+        inner = fresh_fn(elem.elem, name + ".e", nidx + 1, wf)
+        return lambda *i: PyList(Seq(lenf(*i), lambda j, i=i: inner(*i, j), np=elem.np), np=elem.np)
+    raise Unsupported(f"fresh_fn: {elem!r}")
 
 
 def shape_of(v):
